@@ -35,7 +35,10 @@ class IkeSaController:
         return next(x for x in self.ike_sas if x.my_spi == spi)
 
     def _get_ike_sa_by_peer_addr(self, peer_addr):
-        return next(x for x in self.ike_sas if x.peer_addr == peer_addr)
+        # an IKE_SA that has been rekeyed or is being deleted takes no new work: its successor (or a new IKE_SA) does
+        closing = (IkeSa.State.REKEYED, IkeSa.State.DEL_AFTER_REKEY_IKE_SA_REQ_SENT, IkeSa.State.DEL_IKE_SA_REQ_SENT,
+                   IkeSa.State.DELETED)
+        return next(x for x in self.ike_sas if x.peer_addr == peer_addr and x.state not in closing)
 
     def _get_ike_sa_by_child_sa_spi(self, spi):
         for ike_sa in self.ike_sas:
